@@ -61,8 +61,13 @@ def gen_case(st, tier, env):
                         "pick": [w.randrange(64) for _ in range(w.randint(1, 4))]})
         elif r < 0.9:
             ops.append({"op": "consensus", "alg": w.choice(["PickAPerm", "BordaCount"])})
-        elif r < 0.95:
+        elif r < 0.94:
             ops.append({"op": "parse", "which": w.randrange(64), "notation": w.choice(["brace", "bracket"])})
+        elif r < 0.97:
+            # an illegal construction: the same name (after the library's own normalisation) in two buckets, adjacent
+            # or not; the API must refuse it or hand out a ranking whose buckets are disjoint
+            ops.append({"op": "overlap", "via": w.choice(["Ranking", "from_string", "from_raw_list", "zero_padded"]),
+                        "nb": w.randint(2, 5), "at": [w.randrange(64), w.randrange(64)]})
         else:
             ops.append({"op": "views"})
     case["ops"] = ops
@@ -95,6 +100,8 @@ def ranking_views(r, what):
     ok, it = call(lambda: [frozenset(key_of(e) for e in b) for b in r])
     if not ok or tuple(it) != cr:
         bad.append((what + ".iter", repr(it)[:200], jsonable_ranking(cr)))
+    if sum(len(b) for b in r.buckets) != len(want_pos):
+        bad.append((what + ".overlapping-buckets", jsonable_ranking(cr), "pairwise disjoint buckets"))
     for b in r.buckets:
         if len(b) == 0:
             bad.append((what + ".empty-bucket", jsonable_ranking(cr), "non-empty buckets"))
@@ -307,6 +314,43 @@ def run_case(case, ctx):
                 for i, r in enumerate(cons.consensus_rankings):
                     bads += ranking_views(r, f"{op['alg']}.consensus_rankings[{i}]")
                 report(bads, "C16/derived-views", kind, {"alg": op["alg"]})
+        elif kind == "overlap":
+            nb = op["nb"]
+            names = list(range(1, nb))  # nb - 1 distinct names in nb buckets: one name comes twice
+            i, j = op["at"][0] % nb, op["at"][1] % nb
+            if i == j:
+                j = (i + 1) % nb
+            i, j = min(i, j), max(i, j)
+            seq = names[:j] + [names[i]] + names[j:]
+            seq = seq[:nb]
+            if len(set(seq)) == len(seq):
+                continue
+            via = op["via"]
+            if via == "Ranking":
+                oko, obj = call(Ranking, [{x} for x in seq])
+                got = [obj] if oko else []
+            elif via == "from_string":
+                oko, obj = call(Ranking.from_string, "[" + ", ".join("{%d}" % x for x in seq) + "]")
+                got = [obj] if oko else []
+            elif via == "zero_padded":
+                txt = ["{%d}" % x for x in seq]
+                txt[j] = "{0%d}" % seq[j]  # "01" and "1" are the same name once converted to int
+                oko, obj = call(Ranking.from_string, "[" + ", ".join(txt) + "]")
+                got = [obj] if oko else []
+            else:
+                raw = [{x} for x in seq]
+                raw[j] = {str(seq[j])}  # 1 and "1" collide after the dataset's int conversion
+                oko, obj = call(Dataset.from_raw_list, [raw, [{x} for x in names]])
+                got = list(obj.rankings) if oko else []
+            ctx.probe("overlap_refused" if not oko else "overlap_accepted")
+            if not oko and not isinstance(obj, ValueError):
+                report([("overlapping construction raised", f"{exc_label(obj)}: {str(obj)[:100]}", "ValueError")],
+                       "C16/derived-views", kind, {"via": via})
+            bads = []
+            for n_r, r0 in enumerate(got):
+                bads += ranking_views(r0, f"{via}(overlapping)[{n_r}]")
+            report(bads, "C16/derived-views", kind, {"via": via})
+            ctx.probe("derived_checked")
         elif kind == "parse":
             # a ranking obtained by parsing the text of one of the dataset's rankings
             if not ds.rankings:
